@@ -155,4 +155,18 @@ PROPS = {
         "thorough": {"cases": 9000, "shards": 16, "shrinktime": "180s", "timeout_s": 3000},
         "assumptions": RUN_ASSUME + ["engine-generated stage outputs in a returned output are not judged: whether they exist depends on the instant a step was closed"],
     },
+    "C13": {
+        "test": "TestC13", "binary": "plain", "level": "exploration",
+        "rule": "generated loops: item lists of length 0, 1-12 or 20-40, parallelism 1-8 (literal, from the workflow input, or the default), "
+                "sub-workflows of four shapes (single step, two-step chain, two declared outputs success/error, nested loop), per-item outcome "
+                "(success / crash / schema-violating output / declared error output) and duration (items finish out of order), items gated on the "
+                "concurrency level so that min(parallelism, n) items must overlap, and in a quarter of the cases a cancellation while items are in "
+                "flight. oracle: concurrent-execution high-water mark of the loop's plugin <= parallelism (and == min(parallelism, n) when overlap is "
+                "forced); result equals the reference (success: list of per-item reference outputs in item order; failure: exactly the failing "
+                "indexes with a message each, and the others' results); cancelled loops: error, or a consistent partition of the items. "
+                "non-trivial = >=2 items, a failing item, or parallelism < n",
+        "quick": {"cases": 900, "shards": 12, "shrinktime": "30s"},
+        "thorough": {"cases": 12000, "shards": 16, "shrinktime": "120s", "timeout_s": 3000},
+        "assumptions": RUN_ASSUME,
+    },
 }
